@@ -2,11 +2,44 @@
 from common import SAN_BASE
 
 PROP = dict(
-        technique="runtime monitoring: ASan/UBSan build, exact-size input fragments, region snapshots around every decoder call, reference decoder / well-formedness verdict per zero-terminated chunk",
-        level_text="(filled in below)",
-        level_note="trusts the reference codec in harness/c01_refcodec.h, gcc ASan+UBSan red zones",
-        legs=[dict(name="c03_decode", src=["c03_decode.c"], libs=["mptcore"], batch=2048, timeout=30,
-                   floors={})],
-        rule="(filled in below)",
-        assumptions=SAN_BASE,
+        technique=("runtime monitoring: ASan/UBSan build; every input fragment handed to a decoder is its own exact-size heap block; "
+                   "the whole input region is snapshotted around every decoder call (writes only between the current decode target "
+                   "and the input position); outcome sequence compared with a reference decoder / well-formedness verdict per "
+                   "zero-terminated chunk; bounded number of calls per stream"),
+        level_text=("Monitored executions of mpt_decode_cobs/_r/_zpe/_zpe_r/mpt_decode_command and of mpt_queue_recv/mpt_queue_peek: "
+                    "every string of length <= 5 (quick) / <= 6 (thorough) over the boundary alphabet "
+                    "{00,01,02,1F,20,DE,DF,E0,E1,FE,FF} x 5 decoders x {one call, byte-wise, PRNG schedule with iovec fragments, "
+                    "slack, peeks, repeated calls}; 250k / 2M streams of valid frames with 0..3 mutations; 120k / 1.5M streams "
+                    "through a decode_queue ring (capacities 1..600, all start offsets sampled).  Exploration, not proof; "
+                    "coverage-guided fuzzing (DESIGN: optional) and valgrind memcheck were not run."),
+        level_note=("trusts the reference decoder / well-formedness predicate in harness/c01_refcodec.h and gcc ASan+UBSan red zones; "
+                    "a stray write into another live heap block that is never compared would be missed"),
+        legs=[dict(name="c03_decode", src=["c03_decode.c"], libs=["mptcore"], batch=2048, timeout=40,
+                   floors={"mpt_decode_cobs": 1000000, "mpt_decode_cobs_r": 1000000, "mpt_decode_cobs_zpe": 1000000,
+                           "mpt_decode_cobs_zpe_r": 1000000, "mpt_decode_command": 1000000,
+                           "monitor:window-compare": 5000000, "monitor:message-compare": 300000,
+                           "monitor:error-for-empty-frame": 50000, "monitor:error-for-malformed-frame": 50000,
+                           "monitor:end-of-input-compare": 500000, "cases:exhaustive-string": 177156,
+                           "runs:with-missing-buffer": 20000, "runs:with-peek": 50000,
+                           "outcome:message:cobs": 10000, "outcome:message:cobs_r": 10000, "outcome:message:cobs_zpe": 10000,
+                           "outcome:message:cobs_zpe_r": 10000, "outcome:message:command": 10000}),
+              dict(name="c03_queue", src=["c03_queue.c"], libs=["mptcore"], batch=512, timeout=40,
+                   floors={"mpt_queue_recv": 300000, "mpt_queue_peek": 50000, "monitor:unconsumed-tail-compare": 500000,
+                           "monitor:message-compare": 50000, "monitor:error-for-malformed-frame": 1000,
+                           "monitor:error-for-empty-frame": 500})],
+        rule=("case = (a) one string over the boundary alphabet, run through all 5 decoders x 3 schedules, or (b) a stream of 1..3 "
+              "reference-encoded frames (1 in 6 encoded for another framing) with 0..3 mutations run through one decoder one-shot and "
+              "under a PRNG schedule, or (c) a stream (frames with 0..2 mutations, or alphabet noise) pushed in PRNG segments into a "
+              "decode_queue ring of PRNG capacity/offset and received with mpt_queue_recv, peeked with mpt_queue_peek.  "
+              "non-trivial = (a) the string contains a delimiter (an outcome must be produced), (b) a mutation was applied or the "
+              "stream has >= 2 frames, (c) at least one message was received and the stream has > 8 bytes; distinct = 64-bit hash of "
+              "(class, decoder, stream bytes[, ring capacity, offset])"),
+        exhaustive_note="all strings of length 0..5 (quick) / 0..6 (thorough) over {00,01,02,1F,20,DE,DF,E0,E1,FE,FF} for each of the 5 decoder functions, one-shot and byte-wise",
+        assumptions=SAN_BASE + [
+            "reference decoder + well-formedness verdict in harness/c01_refcodec.h; chunks using ZPE code 0xFF, or a cut-short last block with code >= 0xE0 under ZPE+R, carry no equality claim (safety monitors only)",
+            "caller protocol of DESIGN Appendix A (examples/core/coding.c): MissingBuffer answered by inserting free bytes at state.curr; peek = one iovec, sourcelen 0",
+            "peek mode is allowed to continue in-place decoding of the current block (what mpt_queue_peek relies on); only the general write-window rule is asserted for it",
+            "termination of a single call is left to the runner's watchdog; the call sequence per stream is bounded by 8*(n+8) calls",
+            "queue leg: progress of mpt_queue_recv (MissingBuffer recovery, stalls) is C02's claim and is not asserted",
+        ],
     )
